@@ -10,7 +10,8 @@ GridQ == Half(0, 2) \cup {<<1, 4>>, <<3, 4>>, <<5, 4>>} \cup Far(0, 2)
 SizesT1 == {<<4, 2>>, <<3, 3>>}
 GridT1 == Half(0, 3) \cup Far(0, 3)
 SizesT2 == {<<2, 2, 2>>, <<2, 3, 2>>}
-GridT2 == Half(0, 2) \cup {<<-3, 2>>}
+\* (the half-cell overhang of Half(0, 2) on rank 3 made 2.2 M states / > 2 h; out-of-range points beyond -3/2 are in GridQ and GridT1)
+GridT2 == {Norm(n, 2) : n \in 0..4} \cup {<<-3, 2>>}
 CaseFile(sz, kd, xg) == [sizes |-> SetToSeq(sz), kvals |-> SetToSeq(kd), xgrid |-> SetToSeq(xg)]
 Tier == IOEnv.VERIF_TIER
 =============================================================================
